@@ -1,2 +1,3 @@
 //! In-crate Kani harnesses for tower-resilience-circuitbreaker.
 pub mod env;
+pub mod svc;
